@@ -378,25 +378,32 @@ def main(argv=None):
         # (2) canaries: seeded changes recorded as detected for this property must still be detected
         resf = os.path.join(HERE, "seeded", "RESULTS.json")
         seeded = json.load(open(resf)) if os.path.exists(resf) else {}
-        for name, r in sorted(seeded.items()):
-            if not name.startswith(a.pid + "_") or r.get("verdict") != "detected":
-                continue
+        names = [name for name, r in sorted(seeded.items()) if name.startswith(a.pid + "_") and r.get("verdict") == "detected"]
+
+        def one_canary(name):
             wt = f"/tmp/pyvc_canary_{os.getpid()}_{name}"
             try:
                 subprocess.run(["git", "-C", "/repo", "worktree", "add", "-q", "--detach", wt, "HEAD"], check=True, capture_output=True)
                 ap_ = subprocess.run(["git", "apply", "--3way", os.path.join(HERE, "seeded", name, "patch.diff")], cwd=wt, capture_output=True)
                 if ap_.returncode != 0:
-                    continue
+                    return name, None
                 env = dict(os.environ)
                 env["PYVC_REPO"] = wt
-                cr = subprocess.run([sys.executable, "-m", "pyvc.prop", a.pid, "--tier", "quick"], capture_output=True, text=True, env=env, cwd=HERE, timeout=14400)
+                cr = subprocess.run([sys.executable, "-m", "pyvc.prop", a.pid, "--tier", "quick", "--jobs", "4"], capture_output=True, text=True, env=env, cwd=HERE, timeout=14400)
+                return name, "VIOLATION property=" in cr.stdout
+            except Exception:       # noqa
+                return name, None
+            finally:
+                subprocess.run(["git", "-C", "/repo", "worktree", "remove", "--force", wt], capture_output=True)
+        with cf.ThreadPoolExecutor(max_workers=4) as tp:
+            for name, killed in tp.map(one_canary, names):
+                if killed is None:
+                    continue
                 canary["run"] += 1
-                if "VIOLATION property=" in cr.stdout:
+                if killed:
                     canary["killed"] += 1
                 else:
                     canary["survived"].append(name)
-            finally:
-                subprocess.run(["git", "-C", "/repo", "worktree", "remove", "--force", wt], capture_output=True)
     else:
         engine_err_pre = []
     rc = 0
